@@ -24,6 +24,15 @@ def budget(tier):
 
 
 def gen(R, tier):
+    if R.chance(0.2):
+        # sharing on two or more levels handled by one resolver
+        from .. import resgen
+        c = resgen.gen_cut_string(R, tier, min_frags=2, with_levels=R.choice([1, 2]), shared_atoms=True)
+        if c is None:
+            return None
+        nsh = c['input'].count('[!') // 2
+        return dict(input=c['input'], twin=c['two_level'], model=c['model'], nshared=nsh, natoms=None, nfr=c['nfr'],
+                    multilevel=True, features=sorted(set(c['features']) | {'multi_level_sharing'}))
     big = (tier == 'thorough') and R.chance(0.3)
     m, cname = molgen.gen_mol_class(R, big=big)
     fclass = R.choice(['two', 'two', 'few', 'few', 'many'])
@@ -57,6 +66,10 @@ def oracle(case):
     model_g = molgen.model_graph(case['model'])
     cg, fine = sut(resolve, case['input'])
     hg = check_molecule(fine, model_g, 'overlapping description')
+    if case.get('multilevel'):
+        _, fine2 = sut(resolve, case['twin'])
+        check_molecule(fine2, model_g, 'two-level description')
+        return
     expect(len(hg) == case['natoms'] - case['nshared'], 'squash:atom-count',
            lambda: '%d heavy atoms, fragments contain %d and %d pairs are shared' % (len(hg), case['natoms'], case['nshared']))
     if case.get('legacy_false_ok'):
